@@ -174,12 +174,17 @@ impl<S: Store> RateLimiter<S> {
             let allow_at = new_tat.saturating_sub(delay_variation_tolerance_ns);
             let allowed = now_ns >= allow_at;
 
+            // State must outlive the point where it stops mattering (TAT + one emission
+            // interval), also when the tolerance is zero (max_burst = 1)
+            let lifetime_pad_ns = delay_variation_tolerance_ns.max(emission_interval_ns);
+
             if allowed {
                 // Update the store with new TAT
                 let ttl = Duration::from_nanos(
                     new_tat
                         .saturating_sub(now_ns)
-                        .saturating_add(delay_variation_tolerance_ns) as u64,
+                        .saturating_add(lifetime_pad_ns)
+                        .max(0) as u64,
                 );
 
                 // Try to update - if it fails due to race condition, retry
@@ -227,7 +232,7 @@ impl<S: Store> RateLimiter<S> {
             let reset_after = Duration::from_nanos(
                 current_tat
                     .saturating_sub(now_ns)
-                    .saturating_add(delay_variation_tolerance_ns)
+                    .saturating_add(lifetime_pad_ns)
                     .max(0) as u64,
             );
 
